@@ -964,9 +964,17 @@ def _s_rstrip(I, s, lineno, chars=None):
     return r
 
 
-def _s_index(I, s, lineno, sub, start=None):
+def _s_index(I, s, lineno, sub, start=None, end=None):
     r = _s_find(I, s, lineno, sub, start)
-    if I.path.branch(r < 0, f'index.notfound@{lineno}'):
+    missing = r < 0
+    if end is not None:
+        # s.index(sub, start, end): the first occurrence from `start` must lie wholly before `end` (end >= 0 here)
+        if not ((isinstance(end, int) and end >= 0) or is_sym_int(end)):
+            raise Unsupported('index with a negative end')
+        if is_sym_int(end):
+            I.path.oblige(f'index.end_is_non_negative@{lineno}', to_z3(end) >= 0, lineno)
+        missing = z3.Or(r < 0, r + z3.Length(to_z3(sub)) > to_z3(end))
+    if I.path.branch(missing, f'index.notfound@{lineno}'):
         I.raise_('ValueError', 'substring not found', lineno=lineno)
     return r
 
@@ -1458,6 +1466,8 @@ def make_builtins(I) -> dict:
         if isinstance(x, GenVal):
             I.raise_('TypeError', 'len of generator')
         if isinstance(x, Obj):
+            if isinstance(x.fields.get('__len__'), Builtin):      # native model object
+                return x.fields['__len__'].fn()
             return I.call_dunder(x, '__len__', [], 0)
         if isinstance(x, (SSet, SDict)):
             card = getattr(I, 'card_model', None)
